@@ -63,7 +63,7 @@ def ls_case_lit(cid, l):
 def tk_case_lit(cid, t):
     before = "[" + "; ".join(qm(f) for f in t["before"]) + "]"
     after = "[" + "; ".join(qm(f) for f in t["after"]) + "]"
-    return f"({cid}%nat, TkBlock (mkTk {qt(t['X'])} {C.nat_list(t['rs'])} {before} {after} {qv(t['core'])}))"
+    return f"({cid}%nat, TkBlock (mkTk {qt(t['X'])} {C.nat_list(t['rs'])} {before} {after} {qv(t['core'])} {t['k']}%nat {qm(t['Y'])}))"
 
 
 def cmtf_case_lit(cid, m):
@@ -793,8 +793,10 @@ def run_tucker(ctx, n_runs):
                     return Us
                 rs_full = [int(U.shape[1]) for U in full(fa)]
                 core = np.asarray(tl.tenalg.multi_mode_dot(X, fa, modes=list(modes), transpose=True), dtype=float)
-                if int(np.prod(rs_full)) <= 32 and list(core.shape) == rs_full:
-                    ctx.add_case("tk", tk_case_lit, dict(X=X, rs=rs_full, before=full(fb), after=full(fa), core=core.ravel()),
+                Ysvd = cap.hooi_svds[off + t * m + j]["Y"]       # the matrix handed to the SVD of this block
+                if (int(np.prod(rs_full)) <= 32 and list(core.shape) == rs_full
+                        and Ysvd.shape == (shape[modes[j]], int(np.prod(rs_full)) // rs_full[modes[j]])):
+                    ctx.add_case("tk", tk_case_lit, dict(X=X, rs=rs_full, before=full(fb), after=full(fa), core=core.ravel(), k=modes[j], Y=Ysvd),
                                  dict(entry=entry, inputs=dict(inputs, sweep=t, block=j, kind="hooi block")))
         # objective recomputed from prefix runs: || X - core x_modes factors || / ||X||
         objs, ok = [], True
